@@ -852,3 +852,19 @@ def func_params(fn) -> list[str]:
     if a.kwarg:
         out.append(a.kwarg.arg)
     return out
+
+
+def enclosing_conditions(node, stop=None):
+    """[(normalised test, polarity)] of the If/While statements syntactically enclosing `node` (outermost first), up to `stop`."""
+    out = []
+    child = node
+    n = getattr(node, "_parent", None)
+    while n is not None and n is not stop:
+        if isinstance(n, (ast.If, ast.While)):
+            if any(child is x for x in n.body):
+                out.append((norm(n.test), True))
+            elif any(child is x for x in n.orelse):
+                out.append((norm(n.test), False))
+        child = n
+        n = getattr(n, "_parent", None)
+    return list(reversed(out))
